@@ -39,7 +39,7 @@ void NAME(T *state, const unsigned char *in, size_t inlen) \
     __CPROVER_assert(state->mode <= 1 && state->count < (state->mode ? (ROUT) : (RIN)), #NAME " precondition: count/mode in range"); \
     __CPROVER_assert(inlen <= STUB_MAX_LEN && (inlen == 0 || __CPROVER_r_ok(in, inlen)), #NAME " precondition: readable input of inlen bytes"); \
     STUB_LOAD(sp, state); \
-    if ((const void *)in != stub_long_buf && inlen <= VERIF_CONTENT_MAX) \
+    if ((stub_long_buf == 0 || (const void *)in != stub_long_buf) && inlen <= VERIF_CONTENT_MAX) \
         sp = spec_sponge_absorb_v(&PARAMS, sp, in, inlen); \
     else { \
         stub_absorb_log.count++; stub_absorb_log.buf = in; stub_absorb_log.len = inlen; \
@@ -58,7 +58,7 @@ void NAME(T *state, unsigned char *out, size_t outlen) \
     __CPROVER_assert(state->mode <= 1 && state->count < (state->mode ? (ROUT) : (RIN)), #NAME " precondition: count/mode in range"); \
     __CPROVER_assert(outlen <= STUB_MAX_LEN && (outlen == 0 || __CPROVER_w_ok(out, outlen)), #NAME " precondition: writable output of outlen bytes"); \
     STUB_LOAD(sp, state); \
-    if ((const void *)out != stub_long_buf && outlen <= VERIF_CONTENT_MAX) \
+    if ((stub_long_buf == 0 || (const void *)out != stub_long_buf) && outlen <= VERIF_CONTENT_MAX) \
         sp = spec_sponge_squeeze_v(&PARAMS, sp, out, outlen); \
     else { \
         stub_squeeze_log.count++; stub_squeeze_log.buf = out; stub_squeeze_log.len = outlen; \
